@@ -832,7 +832,7 @@ open Aux in
 /-- **exact**: what a successful fetch returns is the decoding (under the Content-Encoding that applies) of either the *whole*
 body of a successful GET response (never a truncated stream), or the in-order concatenation of one complete, in-contract
 (206, exact length, Content-Range consistent with the request and the probed size `n > 0`) chunk body per computed range. -/
-theorem C31_exact_single {σ : Type} (env : Env) (o : Origin σ) (cfg : Cfg) (sched1 sched2 : List Nat) (s : σ) (url : Url) (bs : Bytes)
+theorem C31_exact {σ : Type} (env : Env) (o : Origin σ) (cfg : Cfg) (sched1 sched2 : List Nat) (s : σ) (url : Url) (bs : Bytes)
     (h : (fetchUrl env o cfg sched1 sched2 s url).val = .ok bs) :
     ∃ data ce, DecodedFrom env cfg ce data bs ∧ (WholeGetBody env o data ∨ ∃ n, 0 < n ∧ Reassembled o cfg n data) := by
   obtain ⟨sched, s', h'⟩ := fetchUrl_ok env o cfg sched1 sched2 s url bs h
